@@ -14,6 +14,12 @@ PUBLIC API and the library's forward chain + error_estimate is evaluated at the 
   TIE      Z-level model (patch indices, rounding split incl. exact ties, centring/fftshift
            permutations, no_shift origin, detector DC position) vs the real arrays.
 
+  HISTORY  (round 4) what was done to the SAME dataset / ptychography object before the final preprocessing must not matter:
+           earlier dataset.preprocess calls with other options, earlier Ptychography.preprocess / reconstruct(num_iters=0) calls,
+           the four losses evaluated in a per-case permuted order and evaluated again at the end (gen_history).
+  SOURCE   (round 4) harness/c02_tie.py translates the index / cache / shape / target-selection / detector logic of the CURRENT
+           source and re-proves on every run that it equals the model (coq/gen_proofs/C02_Gen*.v).
+
 Families (round 3): main (even ROI, no_shift; steps below one pixel, large padding, non-square objects),
 odd (odd ROI sizes, no_shift — claimed since fixes/C02-no-shift-odd-roi.diff), half (scan positions on EXACT
 half-integers, simulated in the library frame with the round-half-to-even anchor of C02_round_tie), line
@@ -66,7 +72,12 @@ Definition qnd (q : Q) : Z * Z := (Qnum (Qred q), Z.pos (Qden (Qred q))).
 # driving the real library (public API; recipe of harness/toy_ptycho.py)
 
 def lib_build(data4d, scan_step_A, recip, energy, obj_arr, obj_type, thick, probe_arr, pad, com, nprobes,
-              probe_weights=None):
+              probe_weights=None, history=None, hist_log=None):
+    """public-API build of the ptychography object.  `history` (see gen_history) = what is done to the SAME dataset /
+    ptychography object before the final preprocessing: earlier `PtychographyDatasetRaster.preprocess` calls with other
+    options, earlier `Ptychography.preprocess` / `reconstruct(num_iters=0)` calls.  An exception raised BY AN EARLIER
+    call is recorded in hist_log and the step skipped (an option the data do not support is not the property's
+    business); the final calls are never guarded."""
     import torch  # noqa
     from quantem.core.datastructures import Dataset4dstem
     from quantem.diffractive_imaging.dataset_models import PtychographyDatasetRaster
@@ -75,10 +86,20 @@ def lib_build(data4d, scan_step_A, recip, energy, obj_arr, obj_type, thick, prob
     from quantem.diffractive_imaging.probe_models import ProbePixelated
     from quantem.diffractive_imaging.ptychography import Ptychography
 
+    history = history or {}
+    hist_log = hist_log if hist_log is not None else []
     d = Dataset4dstem.from_array(
         np.asarray(data4d, dtype=np.float32),
         sampling=(scan_step_A[0], scan_step_A[1], recip[0], recip[1]), units=("A", "A", "A^-1", "A^-1"))
     pd = PtychographyDatasetRaster.from_dataset4dstem(d, verbose=0)
+    for k, h in enumerate(history.get("dset", [])):
+        try:
+            pd.preprocess(com_fit_function=h["com"], plot_rotation=False, plot_com=False, probe_energy=energy,
+                          force_com_rotation=h["rotation"], force_com_transpose=h["transpose"], bilinear=h["bilinear"],
+                          obj_padding_px=tuple(h["pad"]), vectorized=h["vectorized"])
+            hist_log.append(("dset", k, "ok"))
+        except Exception as e:  # noqa: BLE001
+            hist_log.append(("dset", k, "raised %s" % type(e).__name__))
     pd.preprocess(com_fit_function=com, plot_rotation=False, plot_com=False, probe_energy=energy,
                   force_com_rotation=0, force_com_transpose=False)
     st = list(thick) if len(thick) else None
@@ -90,6 +111,15 @@ def lib_build(data4d, scan_step_A, recip, energy, obj_arr, obj_type, thick, prob
                                    probe_params={"energy": energy}, initial_probe_weights=probe_weights)
     pt = Ptychography.from_models(dset=pd, obj_model=om, probe_model=pm, detector_model=DetectorPixelated(),
                                   rng=1, verbose=0)
+    for k, h in enumerate(history.get("pt", [])):
+        try:
+            if h["op"] == "preprocess":          # earlier Ptychography.preprocess, possibly with another padding
+                pt.preprocess(obj_padding_px=tuple(int(p) for p in h["pad"]))
+            elif h["op"] == "reconstruct0":      # public selection of a loss' targets; needs a preprocessed object
+                pt.reconstruct(num_iters=0, loss_type=h["loss"])
+            hist_log.append(("pt", k, "ok"))
+        except Exception as e:  # noqa: BLE001
+            hist_log.append(("pt", k, "raised %s" % type(e).__name__))
     pt.preprocess(obj_padding_px=tuple(int(p) for p in pad))
     return pt
 
@@ -358,6 +388,58 @@ def gen_case(r: random.Random, family: str, quick=True) -> dict:
     return c
 
 
+HISTORY_COMS = ["constant", "no_shift", "plane", "none", "parabola"]
+
+
+def gen_history(rh: random.Random, c: dict, k: int = 99) -> dict:
+    """what happens to the SAME dataset / ptychography object before the state the property speaks about: earlier
+    `PtychographyDatasetRaster.preprocess` calls with other options (descan fit, forced rotation / transpose, bilinear,
+    padding, looped CoM), earlier `Ptychography.preprocess` calls (other padding, or the same one again) and
+    `reconstruct(num_iters=0, loss_type=...)` calls, the ORDER in which the four losses are evaluated, and the order of
+    a repeated evaluation at the end.  The property is about the final preprocessing only: whatever was done before,
+    the losses at the ground truth are ~0.  k = index of the case in its family: the first cases cycle through the
+    history kinds so that every run has each of them."""
+    h = {"dset": [], "pt": [], "warm": [], "order": list(LOSSES), "order_repeat": list(LOSSES)}
+    kind = ["none", "dset", "dset+pt", "dset", "pt", "dset2"][k % 6] if k < 12 else rh.choice(
+        ["none", "dset", "dset", "dset+pt", "pt", "dset2"])
+    nd = {"none": 0, "pt": 0, "dset": 1, "dset+pt": 1, "dset2": 2}[kind]
+    for i in range(nd):
+        # the first earlier call uses ANOTHER descan fit than the final one (so that the centred data differ)
+        others = [x for x in HISTORY_COMS[:4] if x != c["com"]]
+        com = rh.choice(others) if i == 0 else rh.choice(HISTORY_COMS)
+        h["dset"].append({"com": com, "rotation": rh.choice([0, 0, 90, -37.5, 12.0, None]),
+                          "transpose": rh.choice([False, False, True, None]), "bilinear": rh.random() < 0.3,
+                          "pad": [rh.choice([0, 1, 3, 6]), rh.choice([0, 2, 5])], "vectorized": rh.random() < 0.7})
+    if "pt" in kind:
+        for i in range(rh.choice([1, 1, 2])):
+            if rh.random() < 0.65:
+                h["pt"].append({"op": "preprocess", "pad": rh.choice([list(c["pad"]), [c["pad"][0] + rh.choice([1, 2, 5]),
+                                                                                      c["pad"][1] + rh.choice([0, 3, 4])],
+                                                                      [rh.choice([0, 2]), rh.choice([0, 1])]])})
+            elif h["pt"]:
+                h["pt"].append({"op": "reconstruct0", "loss": rh.choice(LOSSES)})
+        if rh.random() < 0.4:
+            h["warm"] = [rh.choice(LOSSES) for _ in range(rh.choice([1, 2]))]
+    order = list(LOSSES)
+    rh.shuffle(order)
+    if k < 8:                              # the first evaluated loss cycles through the four types
+        order.remove(LOSSES[k % 4])
+        order.insert(0, LOSSES[k % 4])
+    h["order"] = order
+    rep = list(LOSSES)
+    rh.shuffle(rep)
+    h["order_repeat"] = rep
+    h["kind"] = kind
+    return h
+
+
+def history_signature(c):
+    h = c.get("history")
+    if not h:
+        return ("fresh",)
+    return (tuple(x["com"] for x in h["dset"]), len(h["pt"]), len(h["warm"]), h["order"][0])
+
+
 def batch_size_for(c, npos):
     """the batch size of a case: 1, the full scan, one that does not divide the number of patterns, or a
     proper divisor (falls back to the nearest available kind for tiny scans)"""
@@ -381,7 +463,7 @@ def batch_size_for(c, npos):
 
 def case_key(c):
     return (c["family"], tuple(c["roi"]), tuple(c["gpts"]), c["kind"], c["slices"], c["modes"], tuple(c["pad"]),
-            tuple(round(s, 3) for s in c["step_px"]), c["com"], tuple(c["descan"]))
+            tuple(round(s, 3) for s in c["step_px"]), c["com"], tuple(c["descan"])) + history_signature(c)
 
 
 # the "strictly larger at a perturbed probe" clause is judged only where the reference simulator says the
@@ -532,15 +614,20 @@ def run_case(c: dict, want_arrays=False) -> CaseResult:
     gt = np.roll(param, tuple(offi), axis=(-2, -1))
     gt_lib = gt.astype(np.float32) if c["kind"] == "potential" else gt.astype(np.complex64)
     prb = sim.probe_real_space(psi_k)
+    hist = c.get("history") or {}
+    hist_log = []
     pt = lib_build(data.reshape(gpts + roi), step_A, recip, energy, gt_lib, c["kind"], c["thick"], prb, c["pad"],
-                   c["com"], nm, probe_weights=c["weights"])
+                   c["com"], nm, probe_weights=c["weights"], history=hist, hist_log=hist_log)
+    res["history_log"] = ["%s[%d]: %s" % x for x in hist_log]
+    # did an earlier dataset preprocessing leave OTHER centred data than the final one?  (then stale state shows)
+    res["history_effective"] = bool(hist.get("dset")) and any(x[0] == "dset" and x[2] == "ok" for x in hist_log)
     res["mean_intensity"] = float(pt.dset.mean_diffraction_intensity)
     res["com_fit"] = [float(pt.dset.com_fit[0].mean()), float(pt.dset.com_fit[1].mean())]
     if nm == 1:
         # normalisation path: a single-mode probe handed to from_array at an ARBITRARY scale and not
         # touched afterwards — the library itself (_apply_weights) must scale it to the mean pattern sum
         ptn = lib_build(data.reshape(gpts + roi), step_A, recip, energy, gt_lib, c["kind"], c["thick"], 0.37 * prb,
-                        c["pad"], c["com"], nm)
+                        c["pad"], c["com"], nm, history=hist)
         res["norm_path"] = lib_forward_multi(ptn, np.arange(npos), ("l2_amplitude", "l1_intensity"))[0]
         pi_ = float((np.abs(ptn.probe_model.probe.detach().cpu().numpy()) ** 2).sum())
         res["norm_probe_intensity"] = pi_
@@ -550,14 +637,18 @@ def run_case(c: dict, want_arrays=False) -> CaseResult:
     pobj = perturb_object(param, c["kind"], c["seed"])
     pobj_lib = np.roll(pobj, tuple(offi), axis=(-2, -1))
     pprb = sim.probe_real_space(perturb_probe(c, psi_k)).astype(np.complex64)
-    l_gt, pred = lib_forward_multi(pt, allidx)
+    order = hist.get("order") or LOSSES
+    for lt in hist.get("warm", []):
+        # losses selected (public call) before the first evaluation
+        pt.reconstruct(num_iters=0, loss_type=lt, constraints={"probe": {"orthogonalize_probe": bool(c["orthogonalize"])}})
+    l_gt, pred = lib_forward_multi(pt, allidx, order)
     res["steps"] = step_observables(pt, steps, data0, offi if anchor != "half_even" else np.zeros(2, int))
     with _Saved(pt):
         set_obj(pt, pobj_lib, c["kind"])
-        l_po, _ = lib_forward_multi(pt, allidx)
+        l_po, _ = lib_forward_multi(pt, allidx, order)
     with _Saved(pt):
         pt.probe_model.probe = pprb
-        l_pp, _ = lib_forward_multi(pt, allidx)
+        l_pp, _ = lib_forward_multi(pt, allidx, order[::-1])
     losses = {lt: {"gt": l_gt[lt], "pert_obj": l_po[lt], "pert_probe": l_pp[lt]} for lt in LOSSES}
     preds = {"pred": pred.detach().cpu().numpy()} if want_arrays else {}
     res["losses"] = losses
@@ -581,6 +672,10 @@ def run_case(c: dict, want_arrays=False) -> CaseResult:
         set_obj(pt, pobj_lib, c["kind"])
         rl2, go2, gp2, _ = lib_reconstruct_loss(pt, bsz, lt, c["orthogonalize"])
         res["reconstruct"].update({"loss_pert": rl2, "grad_obj_pert": go2, "grad_probe_pert": gp2})
+    # 6. repeated evaluation at the ground truth, after everything above was done to the same objects, in another order
+    if hist:
+        l_rep, _ = lib_forward_multi(pt, allidx, hist.get("order_repeat") or LOSSES)
+        res["losses_repeat"] = {lt: l_rep[lt] for lt in LOSSES}
     if want_arrays:
         res["_pt"] = pt
         res["_data"] = data
@@ -620,7 +715,12 @@ def oracle(res: CaseResult, claim_zero=True):
                             "[%s, %d slice(s), %d mode(s), roi %s, scan %s step %s px, padding %s -> object %s, %s]" % (
                                 lt, v["gt"], v["pert_obj"], v["pert_probe"], v["gt"] / max(ref, 1e-300), zr[lt],
                                 c["kind"], c["slices"], c["modes"], c["roi"], c["gpts"], [round(s, 3) for s in c["step_px"]],
-                                c["pad"], res["obj_shape"], c["com"])))
+                                c["pad"], res["obj_shape"], c["com"]) + _history_text(c, res)))
+            if "losses_repeat" in res and not (res["losses_repeat"][lt] <= zr[lt] * ref):
+                bad.append(("loss-not-zero-at-ground-truth-on-repeat/%s" % lt,
+                            "%s evaluated AGAIN at the ground truth (after the perturbed evaluations and one reconstruct() epoch on "
+                            "the same objects) = %.6g, not ~0 (first evaluation %.6g; perturbed object %.6g, perturbed probe %.6g)" % (
+                                lt, res["losses_repeat"][lt], v["gt"], v["pert_obj"], v["pert_probe"]) + _history_text(c, res)))
             probe_seen = res.get("probe_pert_observable", 1.0) > PROBE_OBSERVABLE
             if not (v["pert_obj"] > 10 * v["gt"] and (v["pert_probe"] > 10 * v["gt"] or not probe_seen)):
                 bad.append(("loss-not-larger-at-perturbation/%s" % lt,
@@ -661,6 +761,16 @@ def oracle(res: CaseResult, claim_zero=True):
                         "object gradient of %s at the ground truth %.4g is not small against %.4g at the perturbed object" % (
                             lt, rc["grad_obj"], rc["grad_obj_pert"])))
     return bad
+
+
+def _history_text(c, res):
+    h = c.get("history")
+    if not h:
+        return ""
+    return ("; HISTORY of the objects: earlier dataset.preprocess calls %s, earlier Ptychography calls %s, losses selected before "
+            "the first evaluation %s, evaluation order %s (repeat %s) [%s]" % (
+                [{k: v for k, v in x.items()} for x in h["dset"]], h["pt"], h["warm"], h["order"], h["order_repeat"],
+                ", ".join(res.get("history_log", []))))
 
 
 def judge(res: CaseResult):
@@ -839,6 +949,8 @@ def _summary(res):
             "pipeline_step_differences": {k: (float("%.3g" % v) if k != "positions" else v)
                                           for k, v in res.get("steps", {}).items()} or None,
             "loss_ratio_gt_over_perturbed": {k: float("%.3g" % v) for k, v in _ratios(res).items()} if "losses" in res else None,
+            "history": c.get("history"), "history_log": res.get("history_log"),
+            "losses_on_repeat": res.get("losses_repeat"),
             "losses": res.get("losses", {}).get("l2_amplitude")}
 
 
@@ -871,7 +983,12 @@ def run(ctx: Ctx):
         "requested padding up to 40 px), odd (odd / mixed ROI, no_shift), half (scan positions on exact half-integers), line "
         "(gpts (1,n), (n,1), (1,1)), constant / odd-constant (symmetric experiment + injected integer descan; claimed iff the "
         "fitted origin is the zero-frequency pixel + integer to %.0e px, measured per case), constant-control (generic "
-        "experiment under `constant`: never claimed)." % COM_PRECONDITION)
+        "experiment under `constant`: never claimed). HISTORY (every generated case; sub-stream of the case seed): the same dataset object is "
+        "preprocessed 0 / 1 / 2 times with other options before the final preprocessing (other descan fit, forced or automatic rotation / "
+        "transpose, bilinear, padding, looped CoM), the same Ptychography object is preprocessed with another or the same padding and "
+        "reconstruct(num_iters=0, loss_type) is called 0-2 times, the four losses are evaluated in a permuted order (the first loss cycles "
+        "through the four types in the first 8 cases of a family) and again at the end in another order; shares are in the distribution "
+        "under history/...  An earlier call that raises is recorded and skipped." % COM_PRECONDITION)
     ctx.assumptions += [
         "numpy.fft / torch.fft compute the DFT (oracle contract; both the simulator's propagation/detector and the library use it)",
         "the independent simulator harness/c02_sim.py states the physics convention (transmission exp(+iV), Fresnel propagator "
@@ -901,6 +1018,11 @@ def run(ctx: Ctx):
     ctx.cov["thresholds"] = {"zero_ratio": ZERO_RATIO, "perturbation_rad": PERT, "com_precondition_px": COM_PRECONDITION,
                              "pipeline_step": STEP_TOL}
     ctx.proofs_or_violation()
+    # translator tie: the integer / index / dispatch logic of the CURRENT source (patch indices, their cache, the
+    # rounding split, object shape and padding arithmetic, target selection, detector operator chain) is translated
+    # and proved equal to the model on every run (coq/gen_proofs/C02_Gen*.v); a broken tie is reported by the framework
+    from ..c02_tie import run_tie
+    run_tie(ctx, random.Random(ctx.rng.randrange(1 << 30)))
 
     import gc
     import torch  # noqa: F401  (import cost ~5 s)
@@ -944,6 +1066,9 @@ def run(ctx: Ctx):
                     c["thick"] = [round(r.uniform(1.0, 12.0), 3) for _ in range(c["slices"] - 1)]
                     w = [0.6 ** i * r.uniform(0.6, 1.0) for i in range(c["modes"])]
                     c["weights"] = [x / sum(w) for x in w]
+                # what was done to the same dataset / ptychography object before (sub-stream of the case seed: the
+                # experiments of a given VERIF_SEED are the ones of the earlier rounds)
+                c["history"] = gen_history(random.Random(c["seed"] + 101), c, k)
                 yield family, c
 
     frozen = False
@@ -989,6 +1114,22 @@ def run(ctx: Ctx):
         ctx.dist("batch_size/%s" % ("one" if bsz == 1 and npos > 1 else "whole scan" if bsz == npos else
                                     "divides" if npos % bsz == 0 else "non-dividing"))
         ctx.dist("orthogonalize_probe/%s" % c["orthogonalize"])
+        h_ = c.get("history")
+        if not h_:
+            ctx.dist("history/none recorded (corpus case: fresh objects, fixed loss order)")
+        else:
+            ctx.dist("history/dataset preprocessed %d time(s) with other options before the final one" % len(h_["dset"]))
+            ctx.dist("history/earlier Ptychography.preprocess or reconstruct(0) calls: %d" % len(h_["pt"]))
+            ctx.dist("history/losses selected before the first evaluation: %d" % len(h_["warm"]))
+            ctx.dist("history/first evaluated loss: %s" % h_["order"][0])
+            for hl in res.get("history_log", []):
+                if "raised" in hl:
+                    ctx.dist("history/earlier call %s (skipped)" % hl.split(": ", 1)[1])
+            for hd in h_["dset"]:
+                ctx.dist("history/earlier dataset com_fit_function: %s" % hd["com"])
+            if h_["dset"] and "amplitude" in h_["order"][0] and not any("intensity" in w_ for w_ in h_["warm"]) and not any(
+                    x.get("op") == "reconstruct0" for x in h_["pt"]):
+                ctx.dist("history/re-preprocessed dataset AND amplitude loss evaluated before any intensity loss")
         ctx.dist("probe_perturbation/%s" % ("observable" if res.get("probe_pert_observable", 1.0) > PROBE_OBSERVABLE
                                             else "unobservable (clause not judged)"))
         claim, pre = judge(res)
